@@ -117,7 +117,7 @@ static bool cmpVec(Ctx& ctx, const std::string& key, const std::string& what, co
   return true;
 }
 
-static void runPrec(const PrecCase& c, Ctx& ctx)
+static void runPrecMode(const PrecCase& c, Ctx& ctx, bool addOnly)
 {
   int ndim = c.mesh.ndim;
   resetGlobals(ndim, c.eigen != 0);
@@ -150,6 +150,10 @@ static void runPrec(const PrecCase& c, Ctx& ctx)
   for (int i = 0; i < n; i++)
     if (!(lam[(size_t)i] > 0) || !std::isfinite((double)lam[(size_t)i])) { ctx.fail("lambda-sign", fmt("Lambda[%d] = %Lg", i, lam[(size_t)i])); return; }
   LD qmax = Q.maxAbs();
+  std::vector<std::vector<double>> xs = {cut(c.x1, n), cut(c.x2, n), std::vector<double>((size_t)n, 0.)};
+  xs[2][(size_t)(c.unit % n)] = 1.;
+  if (!addOnly)
+  {
   // --- (b) symmetry of S and Q
   LD smax = S.maxAbs();
   for (int i = 0; i < n; i++)
@@ -178,8 +182,6 @@ static void runPrec(const PrecCase& c, Ctx& ctx)
     }
   }
   // --- (a) products
-  std::vector<std::vector<double>> xs = {cut(c.x1, n), cut(c.x2, n), std::vector<double>((size_t)n, 0.)};
-  xs[2][(size_t)(c.unit % n)] = 1.;
   for (size_t k = 0; k < xs.size(); k++)
   {
     std::vector<LD> x = toLD(xs[k]), yq, ya, yr, yra;
@@ -254,7 +256,8 @@ static void runPrec(const PrecCase& c, Ctx& ctx)
     LD ldr = cholLogDet(L);
     if (!(fabsl((LD)ld - ldr) <= 1e-8L * (fabsl(ldr) + n))) { ctx.fail("cs-logdet", fmt("log det Q = %.17g, dense reference %.17Lg", ld, ldr)); return; }
   }
-  // --- deferred (recorded findings first stop here, everything else has been checked before)
+  } // !addOnly
+  if (addOnly)
   {
     // addToDest adds to its destination (ALinearOp contract relied upon by SPDEOp / Eigen CG products)
     size_t k = 0;
@@ -282,7 +285,7 @@ static void runPrec(const PrecCase& c, Ctx& ctx)
       if (!cmpVec(ctx, "addToDest:free-overwrites", "PrecisionOp::addToDest(x, y0) vs y0 + Qx", o.data(), exp, sc, 1e-8)) return;
     }
   }
-  if (!c.eigen)
+  if (!c.eigen && !addOnly) // last: MatrixSparse::addToDest ignores the csparse storage (recorded finding)
   {
     std::vector<LD> x = toLD(xs[0]), yq, ya;
     Q.mul(x, yq);
@@ -295,7 +298,20 @@ static void runPrec(const PrecCase& c, Ctx& ctx)
   ctx.nontrivial(nontrivialGeom(c.mesh, {c.cov}));
   ctx.sig = Hash().add(c.mesh.ndim).add(c.mesh.kind).add(n).add(c.cov.type).addq(c.cov.param).addq(c.cov.ranges[0] / c.mesh.cell()).addq(c.mesh.ang.empty() ? 0. : c.mesh.ang[0]).add(c.eigen).h;
 }
+static void runPrec(const PrecCase& c, Ctx& ctx) { runPrecMode(c, ctx, false); }
 VERIF_SUB(precision, PrecCase, genPrec, runPrec);
+// sub-property "addtodest": ALinearOp::addToDest adds to its destination in both forms (callers: SPDEOp
+// and the Eigen conjugate-gradient products rely on it)
+static PrecCase genAdd()
+{
+  PrecCase c = genPrec();
+  c.mesh = genMeshSpec(80, {0, 1, 2, 3});
+  c.cov = genCov(c.mesh.ndim, c.mesh.cell(), c.cov.sill > 100 ? 1e4 : (c.cov.sill < 1e-3 ? 1e-6 : 1.), false);
+  c.eigen = 1;
+  return c;
+}
+static void runAdd(const PrecCase& c, Ctx& ctx) { runPrecMode(c, ctx, true); }
+VERIF_SUB(addtodest, PrecCase, genAdd, runAdd);
 
 // =====================================================================================
 // sub-property "proj": (c) ProjMatrix rows are barycentric coordinates
@@ -717,8 +733,10 @@ static void runKrig(const KrigCase& c, Ctx& ctx)
     for (int k = 0; k < C.N; k++) ref[(size_t)j] += a[(size_t)k] * C.u[(size_t)k];
     cholSolve(C.L, a);
     amp[(size_t)j] = norm2(a);
-    emax = std::max(emax, fabsl(ref[(size_t)j]));
   }
+  // round-off of an estimate a'u is relative to the size of u (the estimate itself may be a small
+  // difference of large terms), not to the estimate
+  emax = normInfV(C.u);
   LD round = 1e3L * C.kappa * 2.220446e-16L;
   for (int j = 0; j < nt; j++)
     if (!(fabsl((LD)est1[j] - ref[(size_t)j]) <= round * emax + 1e-300L))
@@ -820,7 +838,7 @@ static bool residualOK(Ctx& ctx, const std::string& key, const CondSystem& C, co
   }
   return true;
 }
-static void runSolve(const SolveCase& c, Ctx& ctx)
+static void runSolveMode(const SolveCase& c, Ctx& ctx, bool spdeOnly)
 {
   int ndim = c.mesh.ndim;
   resetGlobals(ndim, c.eigen != 0);
@@ -883,6 +901,7 @@ static void runSolve(const SolveCase& c, Ctx& ctx)
   auto cgResidual = [&]() {
     return residualOK(ctx, "cg-multi:residual", C, C.b, cgOut, sqrtl((LD)cgEps), fmt("conjugate gradients (eps %g, i.e. |r|^2 <= eps |b|^2)", cgEps));
   };
+  if (!spdeOnly)
   {
     PrecisionOpMultiConditional pmc;
     for (int i = 0; i < ns; i++)
@@ -918,6 +937,7 @@ static void runSolve(const SolveCase& c, Ctx& ctx)
     cgEps = eps;
   }
   // ---- B. sparse Cholesky of PrecisionOpMultiConditionalCs
+  if (!spdeOnly)
   {
     PrecisionOpMultiConditionalCs pcs;
     for (int i = 0; i < ns; i++)
@@ -943,9 +963,10 @@ static void runSolve(const SolveCase& c, Ctx& ctx)
   }
   ctx.nontrivial(nontrivialGeom(c.mesh, c.covs));
   ctx.sig = Hash().add(ndim).add(c.mesh.kind).add(C.N).add(nd).add(ns).add(c.epsExp).add(c.tolExp).addq(c.data.zscale).add(c.eigen).h;
-  if (!c.eigen) { ctx.label("spdeop:skipped-csparse"); cgResidual(); return; }
-  // ProjMultiMatrix::createFromDbAndMeshes admits one mesh (or one per variable): single-structure models only
-  if (ns != 1) { ctx.label("spdeop:skipped-two-structures"); cgResidual(); return; }
+  if (!spdeOnly) { cgResidual(); return; }
+  // ProjMultiMatrix::createFromDbAndMeshes admits one mesh (or one per variable): single-structure models only;
+  // Eigen storage only (MatrixSparse::addToDest ignores the csparse storage, recorded finding)
+  if (!c.eigen || ns != 1) { ctx.inconclusive("spdeop-needs-eigen-storage-and-one-structure"); return; }
 
   // ---- C. SPDEOp (Eigen conjugate gradients through LinearOpCGSolver) and SPDEOpMatrix (Cholesky)
   {
@@ -962,7 +983,7 @@ static void runSolve(const SolveCase& c, Ctx& ctx)
     }
     CondSystem C2;
     if (!buildSystem(Qs, As, ninv, zc, C2)) { ctx.fail("solve:system-not-PD", "Q + A'N A is not positive definite"); return; }
-    if (C2.kappa > 1e10L) { if (cgResidual()) ctx.inconclusive("ill-conditioned"); return; }
+    if (C2.kappa > 1e10L) { ctx.inconclusive("ill-conditioned"); return; }
     ctx.at("ProjMultiMatrix::createFromDbAndMeshes");
     ProjMultiMatrix AM = ProjMultiMatrix::createFromDbAndMeshes(db.get(), meshes);
     std::vector<double> xf = flat(xin);
@@ -983,7 +1004,6 @@ static void runSolve(const SolveCase& c, Ctx& ctx)
       if ((int)kr.size() != C2.N) { ctx.fail("spdeop-matrix:kriging-size", "kriging returns a vector of wrong size"); return; }
       if (!residualOK(ctx, "spdeop-matrix:residual", C2, C2.b, kr.getVector(), 0.L, "SPDEOpMatrix::kriging (Cholesky)")) return;
     }
-    if (!cgResidual()) return;
     {
       ctx.at("SPDEOp");
       PrecisionOpMulti Qf(model.get(), meshes);
@@ -1008,7 +1028,19 @@ static void runSolve(const SolveCase& c, Ctx& ctx)
     }
   }
 }
+static void runSolve(const SolveCase& c, Ctx& ctx) { runSolveMode(c, ctx, false); }
 VERIF_SUB(solves, SolveCase, genSolve, runSolve);
+// sub-property "spdeop": SPDEOpMatrix (Cholesky) and SPDEOp (matrix-free, Eigen conjugate gradients through
+// LinearOpCGSolver) apply and solve the documented system Q + A' N A
+static SolveCase genSpdeOp()
+{
+  SolveCase c = genSolve();
+  c.covs.resize(1);
+  c.eigen = 1;
+  return c;
+}
+static void runSpdeOp(const SolveCase& c, Ctx& ctx) { runSolveMode(c, ctx, true); }
+VERIF_SUB(spdeop, SolveCase, genSpdeOp, runSpdeOp);
 
 // =====================================================================================
 // sub-property "powers": (a, continued) the matrix-free powers used by simulation (P^-1/2) and by
